@@ -1,1 +1,368 @@
-(* Proofs/Complex.v -- stub, to be filled in *)
+(* Proofs/Complex.v -- lemmas about Model/Complex.v (C13): Complex F is the ring / field F[i],
+   the operator variants agree, the lexicographic ordering is a strict total order. *)
+From Coq Require Import List Arith Bool Ring Ring_theory Field Field_theory Setoid.
+From OV Require Import Base.Panic Base.Arith Model.Complex.
+Import ListNotations.
+Local Open Scope arith_scope.
+
+Lemma cplx_ext {A : Arith} (z w : cplx A) : re z = re w -> im z = im w -> z = w.
+Proof. destruct z, w; cbn; intros -> ->; reflexivity. Qed.
+
+Lemma cplx_eta {A : Arith} (z : cplx A) : mkC (re z) (im z) = z.
+Proof. destruct z; reflexivity. Qed.
+
+Definition exactly_one (P Q R : Prop) : Prop :=
+  (P /\ ~ Q /\ ~ R) \/ (~ P /\ Q /\ ~ R) \/ (~ P /\ ~ Q /\ R).
+
+(* ------------------------------------------------------------------------------------------- *)
+(* 1. statements that hold for ANY arithmetic (no law at all: floats included)                   *)
+Section AnyArith.
+Context {A : Arith}.
+Implicit Types z w : cplx A.
+
+(* seven of the eight compound assignments are syntactically their binary forms *)
+Lemma assign_eq_binary_any_arith_lemma z w (r : A) :
+  cdiv_assign z w = cdiv z w /\ cadd_assign z w = cadd z w /\ csub_assign z w = csub z w /\
+  cadd_assign_r z r = cadd_r z r /\ csub_assign_r z r = csub_r z r /\
+  cmul_assign_r z r = cmul_r z r /\ cdiv_assign_r z r = cdiv_r z r.
+Proof. repeat split; reflexivity. Qed.
+
+(* the eighth needs commutativity of + and nothing else: the assignment form computes b*c + a*d *)
+Lemma cmul_assign_eq_lemma (add_comm : forall x y : A, x + y = y + x) z w : cmul_assign z w = cmul z w.
+Proof. unfold cmul_assign, cmul. f_equal. apply add_comm. Qed.
+
+Lemma assign_eq_binary_lemma (add_comm : forall x y : A, x + y = y + x) z w (r : A) :
+  cmul_assign z w = cmul z w /\ cdiv_assign z w = cdiv z w /\ cadd_assign z w = cadd z w /\
+  csub_assign z w = csub z w /\ cadd_assign_r z r = cadd_r z r /\ csub_assign_r z r = csub_r z r /\
+  cmul_assign_r z r = cmul_r z r /\ cdiv_assign_r z r = cdiv_r z r.
+Proof. split; [apply cmul_assign_eq_lemma, add_comm | repeat split; reflexivity]. Qed.
+
+Lemma rmul_c_eq_lemma (r : A) z : rmul_c r z = cmul_r z r.
+Proof. reflexivity. Qed.
+
+Lemma cclone_id_lemma z : cclone z = z.
+Proof. apply cplx_eta. Qed.
+
+Lemma cneb_negb_lemma z w : cneb z w = negb (ceqb z w).
+Proof. reflexivity. Qed.
+
+End AnyArith.
+
+(* ------------------------------------------------------------------------------------------- *)
+(* 2. over a commutative ring                                                                    *)
+Section OverRing.
+Context {A : Arith}.
+Hypothesis Rth : ring_theory (@zero A) one add mul sub neg eq.
+Add Ring Aring : Rth.
+Implicit Types z w v : cplx A.
+
+Ltac cring := intros; apply cplx_ext; cbn; ring.
+
+Lemma complex_ring_lemma : ring_theory (@czero A) cone cadd cmul csub cneg eq.
+Proof. constructor; cring. Qed.
+
+Lemma add_comm_of_ring (x y : A) : x + y = y + x.
+Proof. ring. Qed.
+
+(* zero and one are identities, on either side (also contained in complex_ring) *)
+Lemma identities_lemma z :
+  cadd z czero = z /\ cadd czero z = z /\ csub z czero = z /\ cmul z cone = z /\ cmul cone z = z /\
+  cadd_r z zero = z /\ csub_r z zero = z /\ cmul_r z one = z /\ rmul_c one z = z.
+Proof. repeat split; cring. Qed.
+
+Lemma conj_abs_sqr_laws_lemma z w :
+  conj (conj z) = z /\
+  conj (cadd z w) = cadd (conj z) (conj w) /\
+  conj (csub z w) = csub (conj z) (conj w) /\
+  conj (cmul z w) = cmul (conj z) (conj w) /\
+  conj (cneg z) = cneg (conj z) /\
+  cmul z (conj z) = cof_r (abs_sqr z) /\
+  abs_sqr (cmul z w) = abs_sqr z * abs_sqr w /\
+  abs_sqr (conj z) = abs_sqr z /\
+  abs_sqr (cneg z) = abs_sqr z /\
+  cadd z (conj z) = cof_r (re z + re z).
+Proof.
+  repeat split; try (apply cplx_ext; unfold abs_sqr; cbn; ring); unfold abs_sqr; cbn; ring.
+Qed.
+
+(* mixed complex/real forms are the complex operations with (r, 0) *)
+Lemma mixed_real_forms_lemma z (r : A) :
+  cadd_r z r = cadd z (cof_r r) /\ csub_r z r = csub z (cof_r r) /\
+  cmul_r z r = cmul z (cof_r r) /\ rmul_c r z = cmul (cof_r r) z.
+Proof. repeat split; cring. Qed.
+
+(* the mutation of DESIGN Appendix D (mul_assign reading the overwritten real part) is NOT the product:
+   it differs from it by  (re - a) * d  in the imaginary part *)
+Lemma cmul_assign_stale_defect z w :
+  im (cmul_assign_stale z w) = im (cmul z w) + (re (cmul z w) - re z) * im w.
+Proof. cbn. ring. Qed.
+
+End OverRing.
+
+(* ------------------------------------------------------------------------------------------- *)
+(* 3. over a field                                                                               *)
+Section OverField.
+Context {A : Arith}.
+Variable F : FieldLaws A.
+Notation inv := (fl_inv A F).
+Notation Fth := (fl_field A F).
+Add Field Afield : (fl_field A F).
+Implicit Types z w v : cplx A.
+
+Lemma eqb_true_iff (x y : A) : eqb x y = true <-> x = y.
+Proof. apply (fl_eqb A F). Qed.
+
+Lemma eqb_false_iff (x y : A) : eqb x y = false <-> x <> y.
+Proof.
+  destruct (eqb x y) eqn:E.
+  - apply eqb_true_iff in E. split; [discriminate | congruence].
+  - split; [intros _ H; apply eqb_true_iff in H; congruence | reflexivity].
+Qed.
+
+Lemma div_nonzero (x y : A) : y <> zero -> div x y = Ok (x * inv y).
+Proof. intros H. rewrite (fl_div A F). apply eqb_false_iff in H. now rewrite H. Qed.
+
+Lemma div_zero (x : A) : div x zero = Panic DivZero.
+Proof. rewrite (fl_div A F). now rewrite (proj2 (eqb_true_iff zero zero) eq_refl). Qed.
+
+Lemma mul_nonzero (x y : A) : x <> zero -> y <> zero -> x * y <> zero.
+Proof.
+  intros Hx Hy H. apply Hx.
+  assert (E : x = (x * y) * inv y) by (field; exact Hy).
+  rewrite E, H. ring.
+Qed.
+
+(* z / w = z * conj w / |w|^2, computed exactly when |w|^2 <> 0 *)
+Lemma cdiv_formula_lemma z w : abs_sqr w <> zero ->
+  cdiv z w = Ok (cmul_r (cmul z (conj w)) (inv (abs_sqr w))).
+Proof.
+  intros H. unfold cdiv. fold (abs_sqr w).
+  rewrite !div_nonzero by exact H. cbn. f_equal. apply cplx_ext; cbn.
+  - f_equal. ring.
+  - f_equal. ring.
+Qed.
+
+Lemma cdiv_cancel_lemma z w : abs_sqr w <> zero ->
+  exists q, cdiv z w = Ok q /\ cmul q w = z /\ cmul w q = z.
+Proof.
+  intros H. eexists. split; [apply cdiv_formula_lemma, H|].
+  unfold abs_sqr in *. split; apply cplx_ext; cbn; field; exact H.
+Qed.
+
+(* division refuses (panics) exactly when |w|^2 = 0 *)
+Lemma cdiv_panics_iff_lemma z w : cdiv z w = Panic DivZero <-> abs_sqr w = zero.
+Proof.
+  split.
+  - intros H. destruct (eqb (abs_sqr w) zero) eqn:E; [now apply eqb_true_iff|].
+    apply eqb_false_iff in E. rewrite (cdiv_formula_lemma z w E) in H. discriminate.
+  - intros H. unfold cdiv. fold (abs_sqr w). rewrite H, div_zero. reflexivity.
+Qed.
+
+(* uniqueness: the quotient is the only solution of q * w = z *)
+Lemma cdiv_unique_lemma z w q : abs_sqr w <> zero -> cmul q w = z -> cdiv z w = Ok q.
+Proof.
+  intros H E. rewrite (cdiv_formula_lemma z w H). f_equal. subst z.
+  unfold abs_sqr in *. apply cplx_ext; cbn; field; exact H.
+Qed.
+
+Lemma cdiv_one_lemma z : cdiv z cone = Ok z /\ cdiv_r z one = Ok z.
+Proof.
+  assert (H1 : (one : A) <> zero) by (apply (F_1_neq_0 Fth)).
+  split.
+  - apply cdiv_unique_lemma.
+    + unfold abs_sqr; cbn. intros E. apply H1. rewrite <- E. ring.
+    + apply cplx_ext; cbn; ring.
+  - unfold cdiv_r. rewrite !div_nonzero by exact H1. cbn. f_equal. apply cplx_ext; cbn; field; exact H1.
+Qed.
+
+(* z / r (real scalar) is z / (r, 0), the refusal included *)
+Lemma cdiv_r_lemma z (r : A) : cdiv_r z r = cdiv z (cof_r r).
+Proof.
+  destruct (eqb r zero) eqn:E.
+  - apply eqb_true_iff in E. subst r.
+    assert (H0 : abs_sqr (cof_r (zero : A)) = zero) by (unfold abs_sqr; cbn; ring).
+    rewrite (proj2 (cdiv_panics_iff_lemma z _) H0).
+    unfold cdiv_r. now rewrite div_zero.
+  - apply eqb_false_iff in E.
+    assert (H : abs_sqr (cof_r r) <> zero).
+    { unfold abs_sqr; cbn. intros H. apply (mul_nonzero r r E E). rewrite <- H. ring. }
+    rewrite (cdiv_formula_lemma z _ H). unfold cdiv_r. rewrite !div_nonzero by exact E. cbn.
+    unfold abs_sqr in *; cbn in *. f_equal. apply cplx_ext; cbn; field; auto.
+Qed.
+
+End OverField.
+
+(* ------------------------------------------------------------------------------------------- *)
+(* 4. the ordering, for a strict total order on the components                                   *)
+Record OrderLaws (A : Arith) : Prop := {
+  ol_eqb : forall x y : A, eqb x y = true <-> x = y;
+  ol_irrefl : forall x : A, ltb x x = false;
+  ol_trans : forall x y z : A, ltb x y = true -> ltb y z = true -> ltb x z = true;
+  ol_total : forall x y : A, ltb x y = true \/ x = y \/ ltb y x = true;
+  ol_leb : forall x y : A, leb x y = ltb x y || eqb x y;
+}.
+
+Section Ordering.
+Context {A : Arith}.
+Hypothesis O : OrderLaws A.
+Implicit Types z w v : cplx A.
+
+Lemma o_eqb_refl (x : A) : eqb x x = true.
+Proof. now apply (ol_eqb A O). Qed.
+
+Lemma o_eqb_false (x y : A) : eqb x y = false <-> x <> y.
+Proof.
+  destruct (eqb x y) eqn:E.
+  - apply (ol_eqb A O) in E. split; [discriminate | congruence].
+  - split; [intros _ H; apply (ol_eqb A O) in H; congruence | reflexivity].
+Qed.
+
+Lemma o_asym (x y : A) : ltb x y = true -> ltb y x = false.
+Proof.
+  intros H. destruct (ltb y x) eqn:E; [|reflexivity].
+  pose proof (ol_trans A O x y x H E) as C. rewrite (ol_irrefl A O) in C. discriminate.
+Qed.
+
+Lemma o_lt_neq (x y : A) : ltb x y = true -> eqb x y = false.
+Proof.
+  intros H. apply o_eqb_false. intros ->. rewrite (ol_irrefl A O) in H. discriminate.
+Qed.
+
+Lemma ceqb_iff_lemma z w : ceqb z w = true <-> z = w.
+Proof.
+  unfold ceqb. rewrite andb_true_iff, !(ol_eqb A O). split.
+  - intros [H1 H2]. now apply cplx_ext.
+  - now intros ->.
+Qed.
+
+(* the scalar partial_cmp never answers None and decides the three cases *)
+Lemma acmp_spec (x y : A) :
+  (acmp x y = Some Lt /\ ltb x y = true) \/ (acmp x y = Some Eq /\ x = y) \/ (acmp x y = Some Gt /\ ltb y x = true).
+Proof.
+  unfold acmp. destruct (eqb x y) eqn:E.
+  - right; left. split; [reflexivity | now apply (ol_eqb A O)].
+  - destruct (ltb x y) eqn:L; [now left|].
+    destruct (ol_total A O x y) as [H|[H|H]].
+    + congruence.
+    + apply o_eqb_false in E. contradiction.
+    + rewrite H. right; right. now split.
+Qed.
+
+Lemma cltb_unfold z w :
+  cltb z w = true <-> (ltb (re z) (re w) = true \/ (re z = re w /\ ltb (im z) (im w) = true)).
+Proof.
+  unfold cltb. destruct (eqb (re z) (re w)) eqn:E; cbn.
+  - apply (ol_eqb A O) in E. split.
+    + intros H. right. now split.
+    + intros [H|[_ H]]; [|exact H]. rewrite E, (ol_irrefl A O) in H. discriminate.
+  - split.
+    + intros H. now left.
+    + intros [H|[H _]]; [exact H|]. apply o_eqb_false in E. contradiction.
+Qed.
+
+Lemma cltb_irrefl_lemma z : cltb z z = false.
+Proof.
+  destruct (cltb z z) eqn:E; [|reflexivity].
+  apply cltb_unfold in E. destruct E as [H|[_ H]]; rewrite (ol_irrefl A O) in H; discriminate.
+Qed.
+
+Lemma cltb_trans_lemma z w v : cltb z w = true -> cltb w v = true -> cltb z v = true.
+Proof.
+  rewrite !cltb_unfold. intros [H1|[E1 H1]] [H2|[E2 H2]].
+  - left. eapply (ol_trans A O); eauto.
+  - left. now rewrite <- E2.
+  - left. now rewrite E1.
+  - right. split; [congruence | eapply (ol_trans A O); eauto].
+Qed.
+
+Lemma cltb_total_lemma z w : cltb z w = true \/ z = w \/ cltb w z = true.
+Proof.
+  rewrite !cltb_unfold.
+  destruct (ol_total A O (re z) (re w)) as [H|[H|H]]; [now left; left | | now right; right; left].
+  destruct (ol_total A O (im z) (im w)) as [K|[K|K]].
+  - left. right. now split.
+  - right; left. now apply cplx_ext.
+  - right; right. right. now split.
+Qed.
+
+Lemma cltb_asym_lemma z w : cltb z w = true -> cltb w z = false.
+Proof.
+  intros H. destruct (cltb w z) eqn:E; [|reflexivity].
+  pose proof (cltb_trans_lemma z w z H E) as C. rewrite cltb_irrefl_lemma in C. discriminate.
+Qed.
+
+Lemma cmp_total_lemma z w : exactly_one (cltb z w = true) (z = w) (cltb w z = true).
+Proof.
+  unfold exactly_one. destruct (cltb_total_lemma z w) as [H|[H|H]].
+  - left. split; [exact H|]. split.
+    + intros ->. rewrite cltb_irrefl_lemma in H. discriminate.
+    + rewrite (cltb_asym_lemma z w H). discriminate.
+  - right; left. subst w. rewrite cltb_irrefl_lemma. repeat split; discriminate.
+  - right; right. split; [|split; [|exact H]].
+    + rewrite (cltb_asym_lemma w z H). discriminate.
+    + intros ->. rewrite cltb_irrefl_lemma in H. discriminate.
+Qed.
+
+(* partial_cmp is total here and agrees with <, =, > *)
+Lemma ccmp_spec_lemma z w :
+  (ccmp z w = Some Lt <-> cltb z w = true) /\
+  (ccmp z w = Some Eq <-> z = w) /\
+  (ccmp z w = Some Gt <-> cltb w z = true) /\
+  ccmp z w <> None.
+Proof.
+  assert (K : (ccmp z w = Some Lt /\ cltb z w = true) \/ (ccmp z w = Some Eq /\ z = w) \/ (ccmp z w = Some Gt /\ cltb w z = true)).
+  { unfold ccmp. destruct (eqb (re z) (re w)) eqn:E; cbn.
+    - apply (ol_eqb A O) in E.
+      destruct (acmp_spec (im z) (im w)) as [[H1 H2]|[[H1 H2]|[H1 H2]]].
+      + left. split; [exact H1|]. apply cltb_unfold. right. now split.
+      + right; left. split; [exact H1|]. now apply cplx_ext.
+      + right; right. split; [exact H1|]. apply cltb_unfold. right. now split.
+    - destruct (acmp_spec (re z) (re w)) as [[H1 H2]|[[H1 H2]|[H1 H2]]].
+      + left. split; [exact H1|]. apply cltb_unfold. now left.
+      + apply o_eqb_false in E. contradiction.
+      + right; right. split; [exact H1|]. apply cltb_unfold. now left. }
+  pose proof (cmp_total_lemma z w) as X. unfold exactly_one in X.
+  destruct K as [[K1 K2]|[[K1 K2]|[K1 K2]]]; rewrite K1;
+    (repeat split; try discriminate; try tauto; try congruence; intros; exfalso; tauto).
+Qed.
+
+Lemma ccmp_equal_iff_eq_lemma z w : ccmp z w = Some Eq <-> ceqb z w = true.
+Proof. rewrite ceqb_iff_lemma. apply ccmp_spec_lemma. Qed.
+
+Lemma cmp_equal_iff_eq_lemma z w :
+  (ccmp z w = Some Eq <-> ceqb z w = true) /\ (ceqb z w = true <-> z = w) /\
+  (ccmp z w = Some Lt <-> cltb z w = true) /\ (ccmp z w = Some Gt <-> cltb w z = true) /\ ccmp z w <> None.
+Proof.
+  destruct (ccmp_spec_lemma z w) as (L & E & G & N).
+  split; [apply ccmp_equal_iff_eq_lemma|]. split; [apply ceqb_iff_lemma|]. tauto.
+Qed.
+
+(* the operators <, <=, >, >= that Rust derives from partial_cmp are the direct renderings used by CArith *)
+Lemma derived_ops_lemma z w :
+  clt_pc z w = cltb z w /\ cle_pc z w = cleb z w /\ cgt_pc z w = cltb w z /\ cge_pc z w = cleb w z /\
+  cleb z w = cltb z w || ceqb z w.
+Proof.
+  destruct (ccmp_spec_lemma z w) as (L & E & G & N).
+  assert (Hle : forall a b : cplx A, cleb a b = cltb a b || ceqb a b).
+  { intros a b. unfold cleb, cltb, ceqb. rewrite !(ol_leb A O).
+    destruct (eqb (re a) (re b)) eqn:E1; cbn.
+    - reflexivity.
+    - now rewrite orb_false_r. }
+  assert (Hsym : ceqb w z = ceqb z w).
+  { destruct (ceqb z w) eqn:E1.
+    - apply ceqb_iff_lemma in E1. subst. now apply ceqb_iff_lemma.
+    - destruct (ceqb w z) eqn:E2; [|reflexivity]. apply ceqb_iff_lemma in E2. subst.
+      rewrite (proj2 (ceqb_iff_lemma z z) eq_refl) in E1. discriminate. }
+  rewrite !Hle, Hsym. unfold clt_pc, cle_pc, cgt_pc, cge_pc.
+  destruct (cmp_total_lemma z w) as [(H1 & H2 & H3)|[(H1 & H2 & H3)|(H1 & H2 & H3)]].
+  - rewrite (proj2 L H1), H1. apply not_true_is_false in H3. rewrite H3.
+    assert (ceqb z w = false) by (apply not_true_is_false; rewrite ceqb_iff_lemma; exact H2).
+    rewrite H. repeat split; reflexivity.
+  - rewrite (proj2 E H2). apply not_true_is_false in H1, H3. rewrite H1, H3.
+    rewrite (proj2 (ceqb_iff_lemma z w) H2). repeat split; reflexivity.
+  - rewrite (proj2 G H3), H3. apply not_true_is_false in H1. rewrite H1.
+    assert (ceqb z w = false) by (apply not_true_is_false; rewrite ceqb_iff_lemma; exact H2).
+    rewrite H. repeat split; reflexivity.
+Qed.
+
+End Ordering.
